@@ -25,8 +25,12 @@ import traceback
 
 from mc import simsched
 
-BASE = 1_500_000_000  # rank r <-> mtime BASE + 100*r seconds (far in the past: anything gwf touches is newer)
-STEP = 100
+BASE = 1_500_000_000  # rank r <-> mtime BASE seconds + r quarter-seconds (far in the past: anything gwf touches is newer)
+STEP_NS = 250_000_000  # consecutive ranks are 0.25 s apart: a comparison that truncates mtimes to whole seconds shows up
+
+
+def rank_ns(rank):
+    return BASE * 10**9 + STEP_NS * rank
 
 
 def sha1(s):
@@ -275,7 +279,7 @@ class Session:
             os.makedirs(os.path.dirname(p), exist_ok=True)
             with open(p, "w") as f:
                 f.write(content)
-            t = (BASE + STEP * rank) * 10**9
+            t = rank_ns(rank)
             os.utime(p, ns=(t, t))
 
     def set_file(self, rel, content=None):
@@ -434,7 +438,7 @@ class Session:
             if rel.startswith(".gwf") or rel in ("workflow.py", ".gwfconf.json"):
                 continue
             self.clock += 1
-            t = (BASE + STEP * self.clock) * 10**9
+            t = rank_ns(self.clock)
             os.utime(p, ns=(t, t))
 
     # ------------------------------------------------------------------
@@ -465,8 +469,8 @@ class Session:
                     # any other file under .gwf/ is gwf's private business (lock files, caches ...): not a workflow file, not a log
                     continue
                 st = os.stat(p)
-                sec = st.st_mtime_ns // 10**9
-                rank = (sec - BASE) // STEP if (sec - BASE) % STEP == 0 and BASE <= sec < BASE + STEP * 10**6 else ("fresh", st.st_mtime_ns)
+                off = st.st_mtime_ns - BASE * 10**9
+                rank = off // STEP_NS if off % STEP_NS == 0 and 0 <= off < STEP_NS * 10**7 else ("fresh", st.st_mtime_ns)
                 files[rel] = (rank, open(p, errors="replace").read())
         fresh = sorted((r[1], p) for p, (r, _) in files.items() if isinstance(r, tuple))
         for _ns, p in fresh:  # only reached if something changed a file behind the audit hook's back
